@@ -44,6 +44,8 @@ CONTEXTS = [_ctx("tag_" + t, "gfa1", t, "S\tA\t*\t" + HOLE, "xx", "xx:%s:" % t) 
     _ctx("aln2", "gfa2", "alignment_gfa2", "E\t*\ta+\tb+\t0\t2\t0\t2\t" + HOLE, "alignment", nover=True),
     _ctx("alnlist1_2", "gfa1", "alignment_list_gfa1", "P\tp\tA+,B+\t" + HOLE, "overlaps", nover=True),
     _ctx("alnlist1_3", "gfa1", "alignment_list_gfa1", "P\tp\tA+,B+,C+\t" + HOLE, "overlaps", nover=True),
+    _ctx("alnlist1_1", "gfa1", "alignment_list_gfa1", "P\tp\tA+\t" + HOLE, "overlaps", nover=True),
+    _ctx("alnlist1_4", "gfa1", "alignment_list_gfa1", "P\tp\tA+,B+,C+,D+\t" + HOLE, "overlaps", nover=True),
     _ctx("pos1", "gfa1", "position_gfa1", "C\tA\t+\tB\t+\t" + HOLE + "\t*", "pos", nover=True),
     _ctx("pos2_E", "gfa2", "position_gfa2", "E\t*\ta+\tb+\t0\t" + HOLE + "\t0\t2\t*", "end1", nover=True),
     _ctx("pos2_F", "gfa2", "position_gfa2", "F\ta\tx+\t0\t" + HOLE + "\t0\t2\t*", "s_end", nover=True),
@@ -94,6 +96,9 @@ ALPHABETS = [
     ("aln2", "1 0 M I P N = X , * - + SP", 3, 4, "", ""),
     ("alnlist1_2", "1 M = , * SP 0", 4, 5, "", ""),
     ("alnlist1_3", "1 M , * 0", 5, 6, "", ""),
+    ("alnlist1_4", "* 1M , *, 1M,", 5, 6, "", ""),
+    ("alnlist1_1", "* 1M , *, 1M,", 4, 5, "", ""),
+    ("alnlist1_3", "* 1M , *, 1M,", 4, 5, "", ""),
     ("pos1", "0 1 9 + - _ SP $ .", 3, 5, "", ""),
     ("pos2_E", "0 1 $ - + SP _ 9", 4, 5, "", ""),
     ("pos2_F", "0 1 $ - SP", 3, 5, "", ""),
@@ -142,6 +147,8 @@ CATALOGUE = {
     "aln2": ["*", "12M", "2M1D3I4P", "1,2,3", "10,0"],
     "alnlist1_2": ["*", "12M", "2M1D"],
     "alnlist1_3": ["*", "12M,3M", "2M1D,1I"],
+    "alnlist1_1": ["*"],
+    "alnlist1_4": ["*", "1M,2M,3M", "*,*,*", "*,*,*,*", "1M,*,1M"],
     "pos1": ["0", "12", "007"],
     "pos2_E": ["0", "12", "12$", "0$"],
     "pos2_F": ["3", "12$"],
@@ -182,7 +189,7 @@ RECS = [
                        (["0", "10"], ["-1", "", "1$", "x", "1.0"]), (["*", "4M"], ["4", ""])],
          ["NM:i:1", "NM:Z:x", "ID:Z:c1", "RC:Z:x", "MQ:Z:x"]),
     _rec("gfa1", "P", [(["p"], ["*x", "", "p q"]), (["A+,B+", "A+", "A+,B-,C+"], ["A", "A+,", "A+ B+", "", "+"]),
-                       (["*", "4M"], ["4M,4M,4M", "", "4M;4M", "x"])], []),
+                       (["*", "4M", "*,4M", "*,*"], ["4M,4M,4M", "", "4M;4M", "x", "*,*,*", "*,*,*,*", "4M,*,*"])], []),
     _rec("gfa2", "H", [], ["VN:Z:2.0", "VN:i:2", "TS:i:100", "TS:Z:x"]),
     _rec("gfa2", "S", [(["a", "1"], ["", "a b"]), (["5", "0"], ["", "x", "5.0", "5$"]),
                        (["*", "ACGTA", "acg!"], ["", "A C"])], ["RC:Z:x"]),
@@ -190,7 +197,7 @@ RECS = [
                        (["0", "2"], ["", "-1", "x", "2$$", "1.0"]), (["4$", "4"], ["$4", "4$ "]), (["0"], ["+"]),
                        (["2", "6$"], [""]), (["*", "2M", "1,2"], ["2X", "M", "2M,", "1,x", ""])],
          ["TS:i:10", "TS:Z:x"]),
-    _rec("gfa2", "F", [(["a"], [""]), (["x+", "x-"], ["x"]), (["0"], ["a"]), (["2", "4$"], ["4$$"]), (["0"], [""]),
+    _rec("gfa2", "F", [(["a"], [""]), (["x+", "x-", "y+"], ["x"]), (["0"], ["a"]), (["2", "4$"], ["4$$"]), (["0"], [""]),
                        (["2"], ["2 "]), (["*", "2M"], ["2="])], ["TS:i:10", "TS:f:1.0"]),
     _rec("gfa2", "G", [(["g", "*"], [""]), (["a+"], ["a"]), (["b-"], ["-"]), (["10", "-5", "0"], ["", "x", "1.5", "1e2"]),
                        (["5", "*"], ["", "x", "**"])], []),
@@ -237,6 +244,8 @@ VARIANTS = [
     (1, "sub", 1, "S\tA\tACGT\tLN:i:4"), (1, "sub", 1, "S\tA\tACGT\tLN:i:5"), (1, "sub", 1, "S\tA\tACGT\tLN:i:3"),
     (1, "sub", 7, "P\tp\tA+,B+\t2M,1M"), (1, "sub", 7, "P\tp\tA+,B+\t2M,1M,1M"), (1, "sub", 7, "P\tp\tA+,Z+\t*"),
     (1, "sub", 7, "P\tp\tA+\t*"), (1, "add", 0, "P\tr\tZ+\t*"),
+    (1, "sub", 8, "P\tq\tA+,B+,C-\t*,*,*,*"), (1, "sub", 8, "P\tq\tA+,B+,C-\t*,*"), (1, "sub", 7, "P\tp\tA+,B+\t*,*,*"),
+    (1, "sub", 8, "P\tq\tA+,B+,C-\t*,*,*,*,*,*"), (1, "add", 0, "P\tr\tA+\t*,*"),
     (1, "sub", 4, "L\tA\t+\tZ\t+\t2M"), (1, "sub", 6, "C\tZ\t+\tB\t+\t1\t2M"), (1, "add", 0, "L\tC\t+\tA\t+\t*"),
     (1, "add", 0, "C\tA\t-\tC\t+\t0\t*"), (1, "add", 0, "# comment"), (1, "add", 0, "H\tVN:Z:1.0"),
     (2, "sub", 4, "E\te1\ta+\tb+\t3\t2\t0\t2\t2M"), (2, "sub", 4, "E\te1\ta+\tb+\t2\t4$\t3\t2\t2M"),
@@ -296,8 +305,17 @@ TEMPLATES = [
          lines=["S\tA\t*", "S\tB\t*", "S\tC\t*", "L\tA\t+\tB\t+\t1M", "L\tB\t+\tC\t+\t1M",
                 "P\tp\tA+,B+,C+\t1M,1M"],
          slots=[(6, 3, ["A+,B+,C+", "A+,B+", "A+"], 0),
-                (6, 4, ["1M,1M", "*", "1M", "1M,1M,1M", "*,*", "1M,1M,1M,1M"], 0)],
+                (6, 4, ["1M,1M", "*", "1M", "1M,1M,1M", "*,*", "1M,1M,1M,1M", "*,*,*", "*,*,*,*", "*,*,*,*,*", "*,1M",
+                        "1M,*", "*,1M,*,*", "1M,*,*,*,*"], 0)],
          orders=[[1, 2, 3, 4, 5, 6], [6, 1, 2, 3, 4, 5], [1, 2, 3, 6, 4, 5], [4, 5, 6, 1, 2, 3]]),
+    # the same on a ring of four segments whose links leave the overlap unspecified: every number of `*`
+    dict(ver="gfa1", dia="standard", maxdev=2,
+         lines=["S\ta\t*", "S\tb\t*", "S\tc\t*", "S\td\t*", "L\ta\t+\tb\t+\t*", "L\tb\t+\tc\t+\t*",
+                "L\tc\t+\td\t+\t*", "L\td\t+\ta\t+\t*", "P\tp1\ta+,b+,c+,d+\t*"],
+         slots=[(9, 3, ["a+,b+,c+,d+", "a+,b+,c+", "a+,b+", "a+", "d+,a+,b+,c+,d+"], 0),
+                (9, 4, ["*", "*,*", "*,*,*", "*,*,*,*", "*,*,*,*,*", "*,*,*,*,*,*", "*,*,*,*,*,*,*", "4M,*,4M", "4M,4M",
+                        "4M,4M,4M,4M,4M", "*,4M", "*,*,*,*,4M,*"], 0)],
+         orders=[[1, 2, 3, 4, 5, 6, 7, 8, 9], [9, 5, 6, 7, 8, 1, 2, 3, 4], [1, 2, 9, 5, 6, 3, 4, 7, 8]]),
     # referenced identifiers defined, GFA1
     dict(ver="gfa1", dia="standard", maxdev=2,
          lines=["S\tA\t*", "S\tB\t*", "L\tA\t+\tB\t+\t*", "C\tA\t+\tB\t-\t0\t*", "P\tp\tA+,B+\t*"],
@@ -396,6 +414,32 @@ API_VALUES = ["1", "abc", "", "*", "a\tb", "a\nb", NONASCII, "1_0", "+", "A+,B+"
 API_DTYPES = ["i", "Z", "J", "H", "B", "f", "A", "q", "", "ii", "position_gfa2", "generic"]
 
 
+# header lines with one tag (MC_Lex layer hdr): predefined header tags x every datatype letter x values of every
+# datatype; PRE / SUF: alone, behind a line that waits for the version decision, with a second tag, before a segment
+HDR = dict(names=["VN", "TS"], types=list("AifZJHB"),
+           values=["1.0", "2.0", "1", "100", "1A", "a", "[1]", '["1.0"]', '{"v":1}', "{}", "c,1", "f,1.0,2.0", "C,2,0", ""],
+           pre=["", "L\tA\t+\tB\t+\t*\n", "# c\nX\tcustom\trecord\n"],
+           suf=["", "\txy:Z:other", "\nS\ta\t1\t*"])
+
+# API histories (MC_Lex layer hist).  Documents in which every record type is connected, fragments share an external
+# sequence, edges / gaps / groups are group items; `seg` is the segment everything hangs on (tail operation rmseg).
+HIST_DOCS = [
+    dict(ver="gfa1", seg="A", lines=["S\tA\tACGT", "S\tB\t*", "S\tC\t*", "L\tA\t+\tB\t+\t2M\tID:Z:l1",
+                                     "L\tB\t+\tC\t-\t*", "C\tA\t+\tB\t-\t0\t*\tID:Z:c1", "P\tp\tA+,B+\t2M", "# c"]),
+    dict(ver="gfa2", seg="a", lines=["S\ta\t4\tACGT", "S\tb\t6\t*", "E\te1\ta+\tb+\t2\t4$\t0\t2\t2M",
+                                     "G\tg\ta+\tb-\t10\t5", "F\ta\tx+\t0\t2\t0\t2\t*", "F\ta\tx-\t1\t3\t0\t2\t*",
+                                     "F\tb\ty+\t0\t2\t0\t2\t*", "O\to\ta+ e1+ b+", "U\tu\ta e1 g o",
+                                     "X\tcustom\t1\txx:i:1", "# c"]),
+]
+HIST_VALUES = ["zz", "zz+", "*", "", "1"]
+HIST_SETTERS = ["set", "attr"]           # line.set(fieldname, value) / line.<fieldname> = value
+# operations after the assignment: rm = gfa.rm(line), disc = line.disconnect(), rmseg = gfa.rm(<seg>),
+# validate = gfa.validate(), lvalidate = line.validate(), str = str(gfa), lstr = str(line), get = line.get(field),
+# back = line.set(field, <the old text of the field>)
+HIST_TAILS = [["rm", "str"], ["disc", "str"], ["rmseg", "str"], ["validate", "lvalidate", "str", "lstr"],
+              ["get", "back", "rm", "str"], ["str", "rmseg", "validate"]]
+
+
 # ---------------------------------------------------------------------------------------------
 # catalogue file for MC_Lex
 
@@ -461,7 +505,7 @@ def build_catalog(tier, layers, shorter=0, only=None):
     lsy, lnq, lnt = LALPH
     docs = [dict(ver=v, dia=d, lines=[[_chars(f) for f in ln.split("\t")] for ln in ls]) for v, d, ls in DOCS]
     variants = [dict(doc=d, op=op, k=k, f=[_chars(f) for f in ln.split("\t")] if ln else []) for d, op, k, ln in VARIANTS]
-    allc = set("\t\n")
+    allc = set("\t\nH:")
     def walk(x):
         if isinstance(x, str):
             allc.update(x)
@@ -482,7 +526,11 @@ def build_catalog(tier, layers, shorter=0, only=None):
                               lines=[[_chars(f) for f in ln] for ln in tl],
                               slots=[dict(line=li, field=fi, alts=[_chars(a) for a in alts], ctx=cx)
                                      for li, fi, alts, cx in t["slots"]]))
+    hdr = {k: [_chars(x) for x in v] for k, v in HDR.items()}
+    api = dict(docs=[dict(ver=d["ver"], lines=[[_chars(f) for f in ln.split("\t")] for ln in d["lines"]]) for d in HIST_DOCS],
+               values=[_chars(v) for v in HIST_VALUES], nsetters=len(HIST_SETTERS), tails=HIST_TAILS)
     data = dict(ctx=ctx, alph=alph, cat=cat, reps=reps, recs=recs, lines=lines, lreps=lreps, templates=templates,
+                hdr=hdr, api=api,
                 lalph=dict(syms=[_chars(s) for s in _syms(lsy)], n=lnq if q else lnt), docs=docs, variants=variants,
                 layers=list(layers))
     walk(data)
@@ -519,7 +567,7 @@ def generate(tier, layers, name, shorter=0, only=None):
             for m in cf.finditer(out)]
     rest = cf.sub("", out)
     parsed = [("CF", v) for v in flat]
-    for head in ("CL", "CD", "CT"):
+    for head in ("CL", "CD", "CT", "CH"):
         parsed += [(head, tlc.tla_value(raw)) for raw in tlc.parse_tuples(rest, head)]
     for head, v in parsed:
         if True:
@@ -533,6 +581,12 @@ def generate(tier, layers, name, shorter=0, only=None):
             elif head == "CD":
                 c = dict(kind="d", ctx=0, ver=v[1], dia=v[2], s="", lines=[[dec(f) for f in ln] for ln in v[3]], mc=v[4])
                 key = ("d", v[1], v[2], tuple(tuple(l) for l in c["lines"]))
+            elif head == "CH":      # history: the case carries everything a replay needs (texts, not indices)
+                d = HIST_DOCS[v[1] - 1]
+                c = dict(kind="h", ctx=0, ver=d["ver"], dia="standard", s="", lines=[], mc="either",
+                         api=["hist", d["ver"], "\n".join(d["lines"]), d["lines"][v[2] - 1], v[3], dec(v[4]),
+                              HIST_SETTERS[v[5] - 1], HIST_TAILS[v[6] - 1], d["seg"]])
+                key = ("h", v[1], v[2], v[3], c["api"][5], v[5], v[6])
             else:
                 c = dict(kind="t", ctx=0, ver="any", dia="standard", s=dec(v[2]), lines=[], mc="either")
                 key = ("t", c["s"])
@@ -766,6 +820,45 @@ class Runner:
             rows.append(r); lv.append(k); cfg.append("line.delete(%r);str" % field)
         return rows, lv, cfg
 
+    # -- C07 rows for an API history: one row per validation level, one result class per call
+    def hist_rows(self, ver, doc, text, i, value, setter, tail, seg):
+        G = self.gfapy
+        rows, lv, cfg = [], [], []
+        label = "hist %r: field %d %s %r; %s" % (text, i, setter, value, ",".join(tail))
+        for k in (0, 1, 2, 3):
+            st, g = self.call(G.Gfa, doc, vlevel=k, version=ver)
+            r = [st]
+            if st == "ok":
+                st, found = self.call(lambda: [x for x in g.lines if str(x) == text])
+                names = []
+                if st == "ok" and found:
+                    ln = found[0]
+                    st, names = self.call(lambda: list(ln.positional_fieldnames))
+                if st != "ok" or not found or i > len(names):
+                    r.append("na" if st == "ok" else st)
+                else:
+                    name = names[i - 1]
+                    old = text.split("\t")[i] if i < len(text.split("\t")) else ""
+                    r.append("ok")
+                    if setter == "set":
+                        r.append(self.call(ln.set, name, value)[0])
+                    else:
+                        r.append(self.call(setattr, ln, name, value)[0])
+                    for op in tail:
+                        f = {"rm": lambda: g.rm(ln), "disc": ln.disconnect, "rmseg": lambda: g.rm(seg),
+                             "validate": g.validate, "lvalidate": ln.validate, "get": lambda: ln.get(name),
+                             "back": lambda: ln.set(name, old)}.get(op)
+                        if op == "str":
+                            r.append(self.written(g))
+                        elif op == "lstr":
+                            r.append(self.written(ln))
+                        elif f is None:
+                            raise MachineryError("unknown history operation " + op)
+                        else:
+                            r.append(self.call(f)[0])
+            rows.append(r); lv.append(k); cfg.append(label)
+        return rows, lv, cfg
+
     def run(self, c, levels):
         self.notes = []
         kind = c["kind"]
@@ -796,6 +889,8 @@ class Runner:
                 rows, lv, cfg = self.api_gfa_rows(a[1], a[2], a[3])
             else:
                 rows, lv, cfg = self.api_line_rows(a[1], a[2], a[3], a[4])
+        elif kind == "h":
+            rows, lv, cfg = self.hist_rows(*c["api"][1:])
         else:
             raise MachineryError("unknown case kind " + kind)
         return rows, lv, cfg, self.notes
@@ -837,8 +932,10 @@ def run_cases(cases, levels, procs=None):
     os.makedirs(FILES, exist_ok=True)
     by_id = {c["id"]: c for c in cases}
     heavy = [c for c in cases if c["kind"] in ("t", "a")]
-    light = [c for c in cases if c["kind"] not in ("t", "a")]
+    light = [c for c in cases if c["kind"] not in ("t", "a", "h")]
+    hist = [c for c in cases if c["kind"] == "h"]
     chunks = [(heavy[i:i + 20], levels) for i in range(0, len(heavy), 20)] + \
+             [(hist[i:i + 100], levels) for i in range(0, len(hist), 100)] + \
              [(light[i:i + 500], levels) for i in range(0, len(light), 500)]
     if procs <= 1 or len(chunks) <= 1:
         results = [_work(ch) for ch in chunks]
@@ -938,7 +1035,7 @@ def _violations(out, prop, cases, rejects):
         clauses = sorted({cl for _, cl in mine})
         rows = sorted({j for j, _ in mine})
         text = case_text(c)
-        api = c["cfg"][rows[0] - 1].split("/")[0] if c["kind"] != "a" else c["cfg"][rows[0] - 1]
+        api = c["cfg"][rows[0] - 1].split("/")[0] if c["kind"] not in ("a", "h") else c["cfg"][rows[0] - 1]
         sites = sorted({"%s@%s" % n for n in c.get("notes", [])})
         v = dict(family="lex", clauses=clauses, input=text if len(text) < 400 else text[:200] + "...(%d chars)" % len(text),
                  api=api, expected=exp, kind=c["kind"],
@@ -1011,6 +1108,11 @@ def _coverage(out, tier, cov, layers, shorter):
                                                           for a, b, c, d in t["slots"]],
                                  orders=t["orders"], max_deviating=t["maxdev"], dialect=t["dia"]) for t in TEMPLATES],
         hub_documents=len(hub_texts()),
+        header_tag_lines=dict(names=HDR["names"], datatypes=HDR["types"], values=HDR["values"], before=HDR["pre"],
+                              after=HDR["suf"]) if "hdr" in layers else None,
+        api_histories=dict(documents=[d["lines"] for d in HIST_DOCS], generic_values=HIST_VALUES, setters=HIST_SETTERS,
+                           tails=HIST_TAILS, per_field_values="valid and invalid representatives of the line layer",
+                           histories=cov.kinds.get("h", 0)) if "hist" in layers else None,
         exhaustive=True,
         exhaustive_scope="every string up to the stated number of symbols over each stated alphabet, every single-point "
                          "mutation of the catalogue, every line / document variant of the stated tables; not the unbounded languages",
@@ -1068,7 +1170,7 @@ def check_c07(out, tier, seed):
     def extra(first):
         t = text_cases(first)
         return t + api_cases(first + len(t))
-    layers = ("enum", "mut", "line", "doc", "xdoc", "lmut", "lenum")
+    layers = ("enum", "mut", "line", "doc", "xdoc", "lmut", "lenum", "hdr", "hist")
     _run(out, tier, "C07", layers, (0, 1, 2, 3), extra)
     if tier != "quick":
         selftest()
@@ -1089,7 +1191,7 @@ def replay(prop, v, path):
     rejects, _ = validate([c], "lex-replay")
     print("input: %r" % case_text(c)[:300])
     for cfg, k, r in zip(c["cfg"], c["lv"], c["res"]):
-        print("   %-40s vlevel=%d -> %s" % (cfg[:40], k, "/".join(r)))
+        print("   %-40s vlevel=%d -> %s" % (cfg if c["kind"] == "h" else cfg[:40], k, "/".join(r)))
     for n in c["notes"]:
         print("   foreign exception: %s at %s" % n)
     bad = [cl for _, cl in rejects.get(1, ("", []))[1] if cl.startswith(prop + ".")]
@@ -1111,6 +1213,8 @@ def selftest():
     def fcase(i, ctx, s, res):
         return dict(id=i, kind="f", ctx=CTX_IDX[ctx], ver=CONTEXTS[CTX_IDX[ctx] - 1]["ver"], dia="standard", s=s,
                     lines=[], lv=[1], res=[res])
+    def lcase(i, fields, res):
+        return dict(id=i, kind="l", ctx=0, ver="gfa1", dia="standard", s="", lines=[fields], lv=[1], res=[res])
     ok = ["ok", "ok", "ok", "ok"]
     refused = ["Error", "na", "na", "na"]
     doc = [["S", "A", "ACGT", "LN:i:4"], ["S", "B", "*"], ["L", "A", "+", "B", "+", "*"]]
@@ -1130,10 +1234,26 @@ def selftest():
         fcase(17, "tag_i", "1_0", ["FOREIGN", "na", "na", "na"]),
         fcase(18, "tag_i", "12", ["ok", "FOREIGN:timeout", "ok", "ok"]),
         dict(id=19, kind="a", ctx=0, ver="gfa1", dia="standard", s="", lines=[], lv=[2], res=[["ok", "NotFoundError", "KeyError"]]),
+        # number of overlaps of a path, whatever the overlaps are (Lex!PathCountWrong)
+        lcase(6, ["P", "p1", "a+,b+,c+,d+", "*,*"], refused),           # genuine: refused
+        lcase(7, ["P", "p1", "a+,b+,c+,d+", "*,*,*"], ok),              # genuine: n-1 placeholders, no verdict, accepted
+        lcase(8, ["P", "p1", "a+,b+,c+,d+", "*,*,*"], refused),         # ... and nothing is demanded either way
+        lcase(20, ["P", "p1", "a+,b+,c+,d+", "*,*"], ok),               # too few placeholders kept
+        lcase(21, ["P", "p1", "a+,b+,c+,d+", "*,*,*,*,*"], ok),         # too many
+        lcase(22, ["P", "p1", "a+", "*,1M"], ok),
+        dict(id=23, kind="d", ctx=0, ver="gfa1", dia="standard", s="", lv=[1, 3], res=[ok[:2] + ["na", "ok"]] * 2,
+             lines=[["S", "A", "*"], ["S", "B", "*"], ["L", "A", "+", "B", "+", "*"], ["P", "p", "A+,B+", "*,*,*"]]),
+        # API histories: one row per level, one result class per call
+        dict(id=9, kind="h", ctx=0, ver="gfa2", dia="standard", s="", lines=[], lv=[0, 3],
+             res=[["ok", "ok", "ok", "ok", "marker"], ["ok", "ok", "Error", "ok", "ok"]]),
+        dict(id=24, kind="h", ctx=0, ver="gfa2", dia="standard", s="", lines=[], lv=[0, 3],
+             res=[["ok", "ok", "ok", "FOREIGN", "marker"], ["ok", "ok", "Error", "ok", "ok"]]),
     ]
     want = {11: {"C04.rejected-valid"}, 12: {"C04.accepted-invalid"}, 13: {"C04.validate-disagrees"},
             14: {"C04.written-invalid"}, 15: {"C04.accepted-invalid"}, 16: {"C07.foreign"}, 17: {"C07.foreign"},
-            18: {"C07.foreign", "C04.validate-disagrees"}, 19: {"C07.foreign"}}
+            18: {"C07.foreign", "C04.validate-disagrees"}, 19: {"C07.foreign"},
+            20: {"C04.accepted-invalid"}, 21: {"C04.accepted-invalid"}, 22: {"C04.accepted-invalid"},
+            23: {"C04.accepted-invalid"}, 24: {"C07.foreign"}}
     rejects, _ = validate(cases, "lex-selftest", nshards=1)
     got = {cid: {cl for _, cl in bad} for cid, (exp, bad) in rejects.items()}
     if got != want:
